@@ -46,7 +46,90 @@ class Facts:
         f.int_apps = dict(self.int_apps)
         f.samplers = dict(self.samplers)
         f.dim_values = dict(self.dim_values)
+        if conds:
+            derive_bounds(f, conds)
         return f
+
+
+def equality_substitutions(F):
+    """ground hypotheses  symbol == constant  (a path taken only for one sample, one component, ...): the symbol can be
+    replaced by the constant everywhere"""
+    mp = {}
+    for h in F.conds:
+        h = C(h)
+        if h.kind != "cmp" or h.args[0] != "==0":
+            continue
+        d = h.args[1]
+        syms = [(m, co) for m, co in d.terms if len(m) == 1 and m[0][1] == 1 and m[0][0].kind == "sym"]
+        rest = [(m, co) for m, co in d.terms if m]
+        if len(syms) == 1 and len(rest) == 1:
+            m, co = syms[0]
+            const = d - Poly({m: co})
+            if const.is_const():
+                name = m[0][0].args[0]
+                if "#" not in name and name not in mp:
+                    mp[name] = Poly.const(-const.const_value() / co)
+    return mp
+
+
+def derive_bounds(F, conds):
+    """a hypothesis `np.all(a <= b)` arrives as  Σ_idx [a[idx] - b > 0] == 0 : for an array a indexed by exactly the summed
+    variables and b free of them this IS the elementwise bound a[...] <= b (resp. >=): recorded as a bound fact, which the
+    max/min simplifier and the z3 translation both know how to use"""
+    for h in conds:
+        h = C(h)
+        if h.kind != "cmp" or h.args[0] != "==0":
+            continue
+        d = h.args[1]
+        if len(d.terms) != 1 or d.terms[0][1] not in (1, -1):
+            continue
+        mono = d.terms[0][0]
+        if len(mono) != 1 or mono[0][1] != 1:
+            continue
+        atom, bvars = mono[0][0], []
+        ok = True
+        while atom.kind == "sum":
+            v, bnd, body = T.open_binder(atom)
+            bvars.append(T.symname(v))
+            if len(body.terms) != 1 or body.terms[0][1] != 1 or len(body.terms[0][0]) != 1 or body.terms[0][0][0][1] != 1:
+                ok = False
+                break
+            atom = body.terms[0][0][0][0]
+        if not ok or not bvars or atom.kind != "ind":
+            continue
+        c = atom.args[0]
+        if c.kind != "cmp" or c.args[0] not in (">0", ">=0", "!=0"):
+            continue
+        both = c.args[0] == "!=0"       # `not np.any(a)`: [a != 0] is 0 for every index: a == 0 everywhere
+        e = c.args[1]           # [e > 0] is 0 for every index:  e <= 0 everywhere
+        hits = [(m, co) for m, co in e.terms if any(n in bvars for a, _ in m for n in a.syms)]
+        # the bounded array: an element indexed by distinct summed variables covering every summed variable the
+        # condition mentions; the rest may depend on (a subset of) those indices:  thr[c, d] >= new[d]
+        used_b = {n for m, _ in hits for a, _p in m for n in a.syms if n in bvars}
+        for m, co in hits:
+            if len(m) != 1 or m[0][1] != 1 or m[0][0].kind != "app" or co not in (1, -1):
+                continue
+            a = m[0][0]
+            idx = a.args[1:]
+            names = [T.symname(i) if isinstance(i, Poly) else None for i in idx]
+            if None in names or len(names) != len(set(names)) or not set(names) <= set(bvars) or not used_b <= set(names):
+                continue
+            rest = e - Poly({m: co})
+            if a.args[0] in {x.args[0] for mm, _c in rest.terms for x, _p in mm if x.kind == "app"}:
+                continue
+            # co * a + rest <= 0
+            bound = (ZERO - rest) if co == 1 else rest
+            if getattr(F, "upper", None) is None:
+                F.upper = {}
+            fn = (lambda *ix, bound=bound, names=names: T.subst(bound, {n: P(i) for n, i in zip(names, ix)}) if len(ix) == len(names) else (_ for _ in ()).throw(TypeError("rank")))
+            tables = [F.upper, F.lower] if both else [F.upper if co == 1 else F.lower]
+            done = False
+            for table in tables:
+                if a.args[0] not in table:
+                    table[a.args[0]] = fn
+                    done = True
+            if done:
+                break
 
 
 # ---------------------------------------------------------------- sign analysis
@@ -200,7 +283,36 @@ def simplify_facts(p, F, depth=0):
             b = P(table[at.args[0]](*at.args[1:]))
         except TypeError:
             return False
-        return T.equal(b, y)
+        # chains of stated bounds:  x >= b1 >= b2 ...  and  y <= u1 <= u2 ...  (for ge; mirrored otherwise); linked when a
+        # member of one chain equals a member of the other, or a ground hypothesis relates them
+        other = (getattr(F, "upper", None) or {}) if ge else F.lower
+
+        def chain(start, tbl):
+            out_, cur = [start], start
+            for _ in range(3):
+                at_ = T._single_atom(cur, "app")
+                if at_ is None or at_.args[0] not in tbl:
+                    break
+                try:
+                    cur = P(tbl[at_.args[0]](*at_.args[1:]))
+                except TypeError:
+                    break
+                out_.append(cur)
+            return out_
+        bs, ys = chain(b, table), chain(y, other)
+        for b2 in bs:
+            for y2 in ys:
+                if T.equal(b2, y2):
+                    return True
+                if b2.hasbv or y2.hasbv:
+                    continue
+                need = T.cmp_cond("<=", y2, b2) if ge else T.cmp_cond("<=", b2, y2)
+                if need.const() is True:
+                    return True
+                strict = T.cmp_cond("<", y2, b2) if ge else T.cmp_cond("<", b2, y2)
+                if any(C(c) == need or C(c) == strict for c in F.conds):
+                    return True
+        return False
 
     def fix_atom(a):
         k = a.kind
